@@ -3,6 +3,8 @@
 
     stream `c13_file` : (file EVENT)          → (line xBYTES) | discarded
     stream `c13_otlp` : (otlp SIGNAL EVENT)   → RECORD | none | panic          SIGNAL ::= logs | traces | metrics
+    stream `c13_term` : (term EVENT)          → (out xBYTES) | panic        (zone pinned to UTC, no colors)
+    stream `c13_otlp_kf` : the same function; its corpus holds the reproducers of the known findings
 
   EVENT  ::= (evt xMDL (tpl PART…) EXTENT UNIQUE (props (xKEY VAL)…))
   PART   ::= (t xTEXT) | (h xLABEL)
@@ -10,6 +12,7 @@
   UNIQUE ::= true | false                                what the collection answers to `is_unique()`
   VAL    ::= null | (bool B) | (int TY N) | (f64 BITS xJSONTOK xDISPLAY) | (str xS) | (disp xS) | (dbg xS)
            | (err xTOP xCAUSE…) | (lvl debug|info|warn|error) | (tid N) | (sid N) | (kind span|metric) | (sv T xDISPLAY)
+           | (arr-i64 (N…) xDISPLAY) | (arr-f64 ((BITS xJSONTOK xDISPLAY)…) xDISPLAY)        N ≤ 6 elements
   T      ::= null | none | unit | (bool B) | (int TY N) | (f64 BITS xJSONTOK xDISPLAY)
            | (f32 BITS32 BITS64 xJSONTOK xDISPLAY64) | (text xS) | (bin xBYTES) | (seq T…) | (map (T T)…)
            | (rec (xL T)…) | (tup T…) | (some T) | (uvar xL) | (nvar xL T) | (svar xL (xL T)…) | (tvar xL T…)
@@ -25,6 +28,7 @@
 import EmitModel.Base.Sexp
 import EmitModel.Model.FileRecord
 import EmitModel.Model.OtlpRecords
+import EmitModel.Model.Term
 
 namespace EmitModel.Driver.C13
 open EmitModel EmitModel.Encode EmitModel.Level
@@ -108,6 +112,18 @@ def val? : Sexp → Option PV
   | .list [.atom "kind", .atom "span"] => some (.simple (.kind .span))
   | .list [.atom "kind", .atom "metric"] => some (.simple (.kind .metric))
   | .list [.atom "sv", t, disp] => do pure (.tree (← tree? t) (← disp.str?))
+  | .list [.atom "arr-i64", .list xs, disp] => do
+    if xs.length > 6 then none
+    let is ← xs.mapM fun x => do
+      let i ← x.int?
+      if -(2 ^ 63) ≤ i ∧ i < 2 ^ 63 then some (V.int i) else none
+    pure (.tree (.seq is) (← disp.str?))
+  | .list [.atom "arr-f64", .list xs, disp] => do
+    if xs.length > 6 then none
+    let fs ← xs.mapM fun (x : Sexp) => match x with
+      | Sexp.list [bits, tok, d] => do pure (V.f64 (← u64? bits) (← tok.str?) (← d.str?))
+      | _ => none
+    pure (.tree (.seq fs) (← disp.str?))
   | _ => none
 
 def ts? : Sexp → Option Ts
@@ -276,7 +292,25 @@ def runOtlp (line : String) : String :=
     | none => "bad-op"
   | _ => "bad-op"
 
+def runTerm (line : String) : String :=
+  match Sexp.parse line with
+  | some (.list [.atom "term", ev]) =>
+    match event? ev with
+    | some e =>
+      match termOutput e with
+      | none => "bad-op"
+      | some out =>
+        let o := match out with
+          | .ok s => sx "out" [atomOfString s]
+          | .panic => "panic"
+        let spark := match (lookupFirst "metric_value" e.props).map seqView with
+          | some (.seq bs) => s!"spark={min bs.length 7}"
+          | _ => "spark=no"
+        s!"{o}\t{spark},{eventSig e}"
+    | none => "bad-op"
+  | _ => "bad-op"
+
 def streams : List (String × (String → String)) :=
-  [("c13_file", runFile), ("c13_otlp", runOtlp)]
+  [("c13_file", runFile), ("c13_otlp", runOtlp), ("c13_otlp_kf", runOtlp), ("c13_term", runTerm)]
 
 end EmitModel.Driver.C13
